@@ -44,6 +44,8 @@ def stream_ops():
 
 def setup(tier, seed):
     global _STREAM
+    import logging
+    logging.getLogger('petl.io.db').setLevel(logging.ERROR)     # "cursor is not recommended" warnings
     _STREAM = stream_ops()
 
 
